@@ -710,3 +710,237 @@ Proof.
   - rewrite word_app. rewrite (word_conn_notes_att ns Hn1 n). cbn [app].
     apply word_conn_notes_att. intros y Hy. eapply dels_run_notes; [exact Hdels|exact Hy].
 Qed.
+
+(* ---- 3e. a tick - sweep or not - never disturbs an accepted publisher ------------------------------------------- *)
+Lemma sweep_events_split : forall st ctrs log, INV_S st log ->
+  exists kicks dels, fst (sweep_events st ctrs) = kicks ++ dels /\ Forall (kick_ok st) kicks /\ Forall del_ev dels.
+Proof.
+  intros st ctrs log Hinv. unfold sweep_events.
+  pose proof (sweep_cands_in (all_cands st) ctrs) as Hfrom.
+  destruct (sweep_cands (all_cands st) ctrs) as [es ctrs']. cbn [fst] in *.
+  exists (filter is_kick es), (filter (fun e => negb (is_kick e)) es). split; [reflexivity|]. split.
+  - apply Forall_forall. intros e He. apply filter_In in He. destruct He as [He Hk].
+    destruct (Hfrom e He) as [c0 [Hc0 Ec0]]. subst e. eapply cand_kick_ok; eassumption.
+  - apply Forall_forall. intros e He. apply filter_In in He. destruct He as [He Hk].
+    destruct (Hfrom e He) as [c0 [Hc0 Ec0]]. pose proof (all_cands_ev st c0 Hc0) as Hv. rewrite Ec0 in Hv.
+    destruct e; try contradiction; try exact I. destruct t; [discriminate|contradiction].
+Qed.
+
+Lemma sweep_run_keeps : forall cf st log ctrs s g, INV_S st log -> get_group st s = Some g -> pub_only g ->
+  keeps s g (fst (run fixed_tree cf st (fst (sweep_events st ctrs)))).
+Proof.
+  intros cf st log ctrs s g Hinv Hg Hp.
+  destruct (sweep_events_split st ctrs log Hinv) as [kicks [dels [E [Hk Hdl]]]]. rewrite E.
+  rewrite (run_app fixed_tree cf kicks dels st), (run_kicks fixed_tree cf kicks st Hk). cbn [fst].
+  apply dels_run_keeps; [exact Hdl| |exact Hp]. unfold get_group. rewrite fold_close_groups. exact Hg.
+Qed.
+
+Theorem tick_keeps_publisher : forall cf ts log c s g,
+  INV_S (t_st ts) log -> get_group (t_st ts) s = Some g -> has_pub g = true ->
+  keeps s g (t_st (fst (fst (tstep fixed_tree cf ts (TEv (ETick c)))))).
+Proof.
+  intros cf ts log c s g Hinv Hg Hpub.
+  assert (Hp : pub_only g) by (apply pub_only_of_slots_ok; [apply (inv_slots _ _ Hinv s g Hg)|exact Hpub]).
+  destruct (st_disposed (t_st ts)) eqn:Hd.
+  - (* the ticker has stopped *)
+    cbn [tstep step]. rewrite Hd, andb_false_r. cbn [fst t_st]. apply keeps_here. exact Hg.
+  - pose proof (tick_step_keeps_pub fixed_tree cf (t_st ts) c s g (inv_keys _ _ Hinv) Hd Hg Hp) as [g1 [Hg1 Hs1]].
+    pose proof (inv_s_step cf (t_st ts) log (ETick c) Hinv) as Hinv1.
+    cbn [tstep]. destruct (step fixed_tree cf (t_st ts) (ETick c)) as [[st1 r1] ns] eqn:Es. cbn [fst snd] in *.
+    rewrite Hd. destruct ((c mod sweep_interval =? 0) && negb false).
+    + pose proof (sweep_run_keeps cf st1 _ (t_ctr ts) s g1 Hinv1 Hg1 (pub_only_sim g g1 Hs1 Hp)) as [g2 [Hg2 Hs2]].
+      destruct (sweep_events st1 (t_ctr ts)) as [es ctrs]. cbn [fst] in *.
+      destruct (run fixed_tree cf st1 es) as [st2 ns2]. cbn [fst t_st] in *.
+      exists g2. split; [exact Hg2|eapply sim_trans; eassumption].
+    + cbn [fst t_st]. exists g1. split; assumption.
+Qed.
+
+(* ---- 4. two consecutive sweeps ------------------------------------------------------------------------------------- *)
+Lemma trun_app : forall fx cf h1 h2 ts,
+  trun fx cf ts (h1 ++ h2) =
+  (fst (trun fx cf (fst (trun fx cf ts h1)) h2), snd (trun fx cf ts h1) ++ snd (trun fx cf (fst (trun fx cf ts h1)) h2)).
+Proof.
+  intros fx cf h1. induction h1 as [|e t IH]; intros h2 ts; simpl.
+  - destruct (trun fx cf ts h2); reflexivity.
+  - destruct (tstep fx cf ts e) as [[ts1 r] ns]. rewrite (IH h2 ts1).
+    destruct (trun fx cf ts1 t) as [c d]. simpl. rewrite app_assoc. reflexivity.
+Qed.
+
+(* a sweep leaves every counter where it was; every candidate has been looked at *)
+Lemma sweep_cands_counters : forall cs ctrs k,
+  c_r (get_ctr k (snd (sweep_cands cs ctrs))) = c_r (get_ctr k ctrs) /\
+  c_w (get_ctr k (snd (sweep_cands cs ctrs))) = c_w (get_ctr k ctrs).
+Proof.
+  intros cs. induction cs as [|c t IH]; intros ctrs k; [split; reflexivity|].
+  cbn [sweep_cands]. destruct (look (cd_kind c) (get_ctr (cd_key c) ctrs)) as [dead c'] eqn:El.
+  specialize (IH (set_ctr (cd_key c) c' ctrs) k).
+  destruct (sweep_cands t (set_ctr (cd_key c) c' ctrs)) as [es ctrs']. cbn [snd] in *.
+  destruct IH as [A B]. rewrite A, B.
+  destruct (ckey_eqb k (cd_key c)) eqn:E.
+  - apply ckey_eqb_eq in E. subst k. rewrite get_set_same.
+    replace c' with (snd (look (cd_kind c) (get_ctr (cd_key c) ctrs))) by (rewrite El; reflexivity). apply look_counters.
+  - rewrite get_set_other; [split; reflexivity|]. intro H. rewrite H, ckey_eqb_refl in E. discriminate.
+Qed.
+
+Lemma sweep_cands_looked : forall cs ctrs c, In c cs -> cd_kind c <> GroupIdle.SPush ->
+  exists w0, stale_of (get_ctr (cd_key c) (snd (sweep_cands cs ctrs))) = Some (c_r (get_ctr (cd_key c) ctrs), w0).
+Proof.
+  intros cs. induction cs as [|c0 t IH]; intros ctrs c Hin Hk; [contradiction|].
+  cbn [sweep_cands]. destruct (look (cd_kind c0) (get_ctr (cd_key c0) ctrs)) as [dead c'] eqn:El.
+  pose proof (sweep_cands_counters t (set_ctr (cd_key c0) c' ctrs)) as Hcnt.
+  assert (Hc' : c' = snd (look (cd_kind c0) (get_ctr (cd_key c0) ctrs))) by (rewrite El; reflexivity).
+  destruct Hin as [Hin|Hin].
+  - subst c0.
+    (* after this look the counter is read-idle; later looks keep that *)
+    assert (Hi : read_idle (get_ctr (cd_key c) (set_ctr (cd_key c) c' ctrs))).
+    { rewrite get_set_same, Hc'. exists (c_w (get_ctr (cd_key c) ctrs)). rewrite look_stale by exact Hk.
+      destruct (look_counters (cd_kind c) (get_ctr (cd_key c) ctrs)) as [A _]. rewrite A. reflexivity. }
+    assert (Hgen : forall cs2 ctrs2, read_idle (get_ctr (cd_key c) ctrs2) -> read_idle (get_ctr (cd_key c) (snd (sweep_cands cs2 ctrs2)))).
+    { clear. intros cs2. induction cs2 as [|c2 t2 IH2]; intros ctrs2 H; [exact H|].
+      cbn [sweep_cands]. destruct (look (cd_kind c2) (get_ctr (cd_key c2) ctrs2)) as [d2 c2'] eqn:El2.
+      specialize (IH2 (set_ctr (cd_key c2) c2' ctrs2)).
+      destruct (sweep_cands t2 (set_ctr (cd_key c2) c2' ctrs2)) as [es2 ctrs2']. cbn [snd] in *. apply IH2.
+      destruct (ckey_eqb (cd_key c) (cd_key c2)) eqn:E.
+      - apply ckey_eqb_eq in E. rewrite E, get_set_same. rewrite E in H.
+        replace c2' with (snd (look (cd_kind c2) (get_ctr (cd_key c2) ctrs2))) by (rewrite El2; reflexivity).
+        apply look_keeps_read_idle. exact H.
+      - rewrite get_set_other; [exact H|]. intro H0. rewrite H0, ckey_eqb_refl in E. discriminate. }
+    specialize (Hgen t _ Hi). destruct (Hcnt (cd_key c)) as [A _].
+    destruct (sweep_cands t (set_ctr (cd_key c) c' ctrs)) as [es ctrs']. cbn [snd] in *.
+    destruct Hgen as [w0 Hw]. exists w0. rewrite Hw, A, get_set_same, Hc'.
+    destruct (look_counters (cd_kind c) (get_ctr (cd_key c) ctrs)) as [A2 _]. rewrite A2. reflexivity.
+  - destruct (IH (set_ctr (cd_key c0) c' ctrs) c Hin Hk) as [w0 Hw].
+    destruct (sweep_cands t (set_ctr (cd_key c0) c' ctrs)) as [es ctrs']. cbn [snd] in *.
+    exists w0. rewrite Hw. f_equal. f_equal.
+    destruct (ckey_eqb (cd_key c) (cd_key c0)) eqn:E.
+    + apply ckey_eqb_eq in E. rewrite E, get_set_same, Hc'. apply look_counters.
+    + rewrite get_set_other; [reflexivity|]. intro H. rewrite H, ckey_eqb_refl in E. discriminate.
+Qed.
+
+(* between sweeps nothing touches the stale stat of a connection: traffic moves the counters only *)
+Definition no_sweep_ev (e : tevent) : Prop :=
+  match e with TEv (ETick c) => (c mod sweep_interval =? 0) = false | _ => True end.
+
+Lemma fold_bump_stale : forall l a k',
+  stale_of (get_ctr k' (fold_left (fun a m => bump (CConn m) 0 1 a) l a)) = stale_of (get_ctr k' a).
+Proof. induction l as [|m t IH]; intros a k'; [reflexivity|]. simpl. rewrite IH. apply bump_stale. Qed.
+
+Lemma bump_pushes_stale : forall l s t a k', stale_of (get_ctr k' (bump_pushes s t l a)) = stale_of (get_ctr k' a).
+Proof.
+  induction l as [|p r IH]; intros s t a k'; [reflexivity|]. simpl. rewrite IH.
+  destruct (pu_att p); [apply bump_stale|reflexivity].
+Qed.
+
+Lemma traffic_stale_conn : forall st st1 e r ctrs n,
+  stale_of (get_ctr (CConn n) (traffic st st1 e r ctrs)) = stale_of (get_ctr (CConn n) ctrs).
+Proof.
+  intros st st1 e r ctrs n. destruct e; cbn [traffic]; try reflexivity; try (destruct r; try reflexivity; apply bump_stale).
+  - (* EPullSucc *) destruct (att_state st s i) as [[| |]|]; try reflexivity.
+    destruct (att_state st1 s i) as [[| |]|]; try reflexivity.
+    destruct (att_is_rtmp st s i); [apply bump_stale|reflexivity].
+  - (* EPushOk *) destruct (negb (push_att st s t) && push_att st1 s t); [|reflexivity].
+    rewrite get_set_other; [reflexivity|discriminate].
+  - (* EMedia *) destruct r; try reflexivity. unfold media_traffic.
+    destruct (find_sess n0 (st_sess st)) as [x|]; [|reflexivity].
+    assert (H1 : stale_of (get_ctr (CConn n) (match s_kind x with KRtmpPub => bump (CConn n0) 1 0 ctrs | _ => ctrs end)) =
+                 stale_of (get_ctr (CConn n) ctrs)) by (destruct (s_kind x); try reflexivity; apply bump_stale).
+    destruct (s_gid x) as [id|]; [|exact H1].
+    destruct (entry_by_id id (st_groups st)) as [[s g]|]; [|exact H1].
+    rewrite bump_pushes_stale, fold_bump_stale. exact H1.
+Qed.
+
+Lemma tstep_stale_conn : forall fx cf ts e n, no_sweep_ev e ->
+  stale_of (get_ctr (CConn n) (t_ctr (fst (fst (tstep fx cf ts e))))) = stale_of (get_ctr (CConn n) (t_ctr ts)).
+Proof.
+  intros fx cf ts e n H. destruct e as [e0|m k|s i k].
+  - destruct e0;
+      try (cbn [tstep]; match goal with |- context[step fx cf (t_st ts) ?ev] => destruct (step fx cf (t_st ts) ev) as [[st1 r] ns] end;
+           cbn [fst t_ctr]; apply traffic_stale_conn).
+    cbn [no_sweep_ev] in H. cbn [tstep]. destruct (step fx cf (t_st ts) (ETick count)) as [[st1 r] ns].
+    rewrite H. cbn [andb fst t_ctr]. reflexivity.
+  - cbn [tstep]. destruct (find_sess m (st_sess (t_st ts))) as [x|]; [|reflexivity].
+    destruct (s_acc x && negb (s_gone x) && negb (s_closed x)); [|reflexivity].
+    destruct (s_kind x); cbn [fst t_ctr]; try reflexivity; apply bump_stale.
+  - cbn [tstep]. destruct (find_att s i (st_atts (t_st ts))) as [a|]; [|reflexivity].
+    destruct (a_state a); try reflexivity. destruct (a_rtmp a); [cbn [fst t_ctr]; apply bump_stale|reflexivity].
+Qed.
+
+Lemma trun_stale_conn : forall fx cf h ts n, Forall no_sweep_ev h ->
+  stale_of (get_ctr (CConn n) (t_ctr (fst (trun fx cf ts h)))) = stale_of (get_ctr (CConn n) (t_ctr ts)).
+Proof.
+  intros fx cf h. induction h as [|e t IH]; intros ts n H; [reflexivity|].
+  inversion H; subst. cbn [trun]. pose proof (tstep_stale_conn fx cf ts e n H2) as H1.
+  destruct (tstep fx cf ts e) as [[ts1 r] ns]. cbn [fst] in H1. specialize (IH ts1 n H3).
+  destruct (trun fx cf ts1 t) as [ts2 ns2]. cbn [fst] in *. congruence.
+Qed.
+
+Definition accepted_pub (st : state) (s n : N) : Prop :=
+  exists g, get_group st s = Some g /\ (g_rtmp g = Some n \/ g_rtsp g = Some n).
+
+(* the first of two sweeps has looked at the accepted publisher *)
+Lemma sweep_tick_looks_at_publisher : forall cf ts log c s n,
+  INV_S (t_st ts) log -> st_disposed (t_st ts) = false -> c mod sweep_interval = 0 -> accepted_pub (t_st ts) s n ->
+  let ts1 := fst (fst (tstep fixed_tree cf ts (TEv (ETick c)))) in
+  exists w0, stale_of (get_ctr (CConn n) (t_ctr ts1)) = Some (c_r (get_ctr (CConn n) (t_ctr ts1)), w0).
+Proof.
+  intros cf ts log c s n Hinv Hd Hc [g [Hg Hslot]] ts1. subst ts1.
+  pose proof (inv_keys _ _ Hinv) as Hnd.
+  assert (Hp : pub_only g).
+  { apply pub_only_of_slots_ok; [apply (inv_slots _ _ Hinv s g Hg)|].
+    unfold has_pub. destruct Hslot as [E|E]; rewrite E; simpl; [reflexivity|destruct (is_some (g_rtmp g)); reflexivity]. }
+  pose proof (tick_step_keeps_pub fixed_tree cf (t_st ts) c s g Hnd Hd Hg Hp) as [g1 [Hg1 Hs1]].
+  cbn [tstep]. destruct (step fixed_tree cf (t_st ts) (ETick c)) as [[st1 r1] ns] eqn:Es. cbn [fst snd] in *.
+  apply N.eqb_eq in Hc. rewrite Hc, Hd. cbn [andb negb].
+  assert (Hslot1 : g_rtmp g1 = Some n \/ g_rtsp g1 = Some n).
+  { destruct Hs1 as [Hsl _]. unfold slots in Hsl. inversion Hsl as [[A B C D E F]]. rewrite A, B. exact Hslot. }
+  assert (Hcd : exists cd, In cd (all_cands st1) /\ cd_key cd = CConn n /\ cd_kind cd <> GroupIdle.SPush).
+  { destruct Hslot1 as [E|E].
+    - exists (mk_cand (CConn n) GroupIdle.SPubRtmp (EKick s (KConn n))). split; [|split; [reflexivity|discriminate]].
+      unfold all_cands. apply in_flat_map. exists (s, g1). split; [apply lookup_In; exact Hg1|].
+      cbn [fst snd]. unfold cands. rewrite E. apply in_or_app. left. left. reflexivity.
+    - exists (mk_cand (CConn n) GroupIdle.SPubRtsp (EKick s (KConn n))). split; [|split; [reflexivity|discriminate]].
+      unfold all_cands. apply in_flat_map. exists (s, g1). split; [apply lookup_In; exact Hg1|].
+      cbn [fst snd]. unfold cands. rewrite E. apply in_or_app. right. apply in_or_app. left. left. reflexivity. }
+  destruct Hcd as [cd [Hin [Hkey Hkind]]].
+  unfold sweep_events.
+  pose proof (sweep_cands_looked (all_cands st1) (t_ctr ts) cd Hin Hkind) as [w0 Hw].
+  pose proof (sweep_cands_counters (all_cands st1) (t_ctr ts) (CConn n)) as [Hr _].
+  destruct (sweep_cands (all_cands st1) (t_ctr ts)) as [es ctrs']. cbn [snd] in *.
+  destruct (run fixed_tree cf st1 (filter is_kick es ++ filter (fun e => negb (is_kick e)) es)) as [st2 ns2].
+  cbn [fst t_ctr]. exists w0. rewrite Hkey in Hw. rewrite Hw, Hr. reflexivity.
+Qed.
+
+(* An accepted input whose read counter did not move between two consecutive sweeps is disposed at
+   the second one: for every history h1, a sweep tick c1, every history h2 without a sweep, and a
+   sweep tick c2 - if n is the accepted RTMP / RTSP publisher of stream s at both sweeps and its
+   connection has read nothing in between, the second sweep closes its connection, leaves it the
+   accepted input of s (slots, pipeline, Group object: the server learns of the end from its shell)
+   and emits no notification about it. *)
+Theorem idle_input_dropped_history : forall cf h1 c1 h2 c2 s n,
+  let ts0 := fst (trun fixed_tree cf tinit h1) in
+  let ts1 := fst (trun fixed_tree cf tinit (h1 ++ [TEv (ETick c1)])) in
+  let ts2 := fst (trun fixed_tree cf tinit (h1 ++ [TEv (ETick c1)] ++ h2)) in
+  c1 mod sweep_interval = 0 -> c2 mod sweep_interval = 0 -> Forall no_sweep_ev h2 ->
+  st_disposed (t_st ts0) = false -> st_disposed (t_st ts2) = false ->
+  accepted_pub (t_st ts0) s n -> accepted_pub (t_st ts2) s n ->
+  c_r (get_ctr (CConn n) (t_ctr ts2)) = c_r (get_ctr (CConn n) (t_ctr ts1)) ->
+  let r := tstep fixed_tree cf ts2 (TEv (ETick c2)) in
+  (exists x, find_sess n (st_sess (t_st (fst (fst r)))) = Some x /\ s_closed x = true) /\
+  accepted_pub (t_st (fst (fst r))) s n /\
+  word (snd r) (WConn n) = [].
+Proof.
+  intros cf h1 c1 h2 c2 s n ts0 ts1 ts2 Hc1 Hc2 Hns Hd0 Hd2 Ha0 Ha2 Hr r.
+  assert (E1 : ts1 = fst (fst (tstep fixed_tree cf ts0 (TEv (ETick c1))))).
+  { subst ts1 ts0. rewrite trun_app. cbn [fst trun].
+    destruct (tstep fixed_tree cf (fst (trun fixed_tree cf tinit h1)) (TEv (ETick c1))) as [[a b] d]. reflexivity. }
+  assert (E2 : ts2 = fst (trun fixed_tree cf ts1 h2)).
+  { subst ts2 ts1. rewrite app_assoc, trun_app. reflexivity. }
+  pose proof (sweep_tick_looks_at_publisher cf ts0 _ c1 s n (trun_inv_s cf h1) Hd0 Hc1 Ha0) as [w0 Hw]. cbv zeta in Hw. rewrite <- E1 in Hw.
+  assert (Hidle : read_idle (get_ctr (CConn n) (t_ctr ts2))).
+  { exists w0. rewrite E2, trun_stale_conn by exact Hns. rewrite <- E2, Hr. exact Hw. }
+  destruct Ha2 as [g [Hg Hslot]].
+  pose proof (idle_publisher_closed cf ts2 _ c2 s g n (trun_inv_s cf _) Hd2 Hc2 Hg Hslot Hidle) as [A [B C]].
+  split; [exact A|]. split; [|exact C].
+  destruct B as [g' [Hg' [Hsl _]]]. exists g'. split; [exact Hg'|].
+  unfold slots in Hsl. inversion Hsl as [[P Q R S T U]]. rewrite P, Q. exact Hslot.
+Qed.
